@@ -1277,7 +1277,7 @@ impl Block {
 
             cumulative_fees = transaction.generate_cumulative_fees(cumulative_fees);
 
-            total_work += transaction.total_work_for_me;
+            total_work = transaction.total_work_for_me.saturating_add(total_work);
 
             // update slips_spent_this_block so that we have a record of
             // how many times input slips are spent in this block. we will
